@@ -220,6 +220,12 @@ def check_history(ctx, hist, path, events, results, det, feats, order_key="seq")
     # statistics snapshots reflect only complete rows
     begin = {(e["pid"], e["w"], e["info"]["k"]): e[order_key] for e in evs if e["op"] == "call_begin"}
     end = {(e["pid"], e["w"], e["info"]["k"]): e[order_key] for e in evs if e["op"] == "call_end"}
+    eval_calls = {}
+    for e in evs:
+        if e["op"] == "call_begin" and e["obj"] == "eval":
+            k_ = (e["pid"], e["w"], e["info"]["k"])
+            eval_calls.setdefault(e["info"]["name"], []).append((e[order_key], end.get(k_)))
+    events_cover_rows = set(row_done) == set(names) and len(names) > 0
     for r in results:
         if r["call"][0] != "stat":
             continue
@@ -227,8 +233,13 @@ def check_history(ctx, hist, path, events, results, det, feats, order_key="seq")
         if key is None or key not in end:
             continue
         t0, t1 = begin[key], end[key]
-        before = {n for n, t in row_done.items() if t < t0}
-        until = {n for n, t in row_done.items() if t < t1}
+        # boundary-level knowledge (independent of how rows are written): a row is certainly complete when every
+        # evaluate call for that name has returned; it can only exist once some evaluate call for it has begun
+        before = {n for n, cs_ in eval_calls.items() if cs_ and all(e_ is not None and e_ < t0 for _, e_ in cs_)}
+        until = {n for n, cs_ in eval_calls.items() if any(b_ < t1 for b_, _ in cs_)}
+        if events_cover_rows:  # every row of the final file was seen being written and closed: tighter bounds
+            before |= {n for n, t in row_done.items() if t < t0}
+            until = {n for n, t in row_done.items() if t < t1}
         ctx.count("C16.snapshots_judged")
         if not r["ok"]:
             if before:
